@@ -78,10 +78,31 @@ inline bool verif_fault(){
 #endif
 }
 
+//! time steps larger than this value are rejected, the behaviour proposes the factor verif_dtmax/dt (non dyadic)
+@Parameter real verif_dtmax = 1.e300;
+//! time step scaling factor proposed after a successful integration
+@Parameter real verif_growth = 1.e10;
+
 @APrioriTimeStepScalingFactor{
   if(verif_fault()){
     return {false,real(0.5)};
   }
+  if(dt>verif_dtmax*(1+1.e-9)){
+    return {false,real(verif_dtmax/dt)};
+  }
+}
+
+@APosterioriTimeStepScalingFactor{
+  return {true,real(verif_growth)};
+}
+'''
+
+ENERGIES = r'''
+@InternalEnergy{
+  Psi_s = (sig|eel)/2;
+}
+@DissipatedEnergy{
+  Psi_d += sig|(deto-deel);
 }
 '''
 
@@ -152,7 +173,7 @@ p.setGlossaryName("EquivalentViscoplasticStrain");
   dfeel_ddp    = n;
   dfp_ddeel    = -2*mu*theta*df_dseq*dt*n;
 }
-''',
+''' + ENERGIES,
     "VPlasticity": r'''
 @DSL IsotropicPlasticMisesFlow;
 @Behaviour VPlasticity;
@@ -169,7 +190,7 @@ s0.setEntryName("InitialYieldStress");
   df_dseq = 1;
   df_dp = -H;
 }
-''',
+''' + ENERGIES,
     "VKinematic": r'''
 @DSL Implicit;
 @Behaviour VKinematic;
@@ -186,7 +207,7 @@ s0.setEntryName("InitialYieldStress");
     kinematic_hardening : "Prager" {C : 30e9}
   }
 };
-''' + FAULT_SCRIPT,
+''' + FAULT_SCRIPT + ENERGIES,
 }
 
 # material properties of a behaviour: name -> (low, high, log scale?)
@@ -405,6 +426,14 @@ def run_mtest(text, name=None, args=(), env_extra=None, ext=".mtest", verbose="q
         env["LD_PRELOAD"] = os.environ["VERIF_MTEST_PRELOAD"]
     cmd = [tool("mtest"), "--verbose=" + verbose] + list(args) + [base + ext]
     rc, so, se = run(cmd, cwd=d, timeout=timeout, env=env)
+    for _ in range(5):
+        # the libraries of the build tree may be in the middle of a relink by another ./check (ninja): retry
+        if rc == 127 and "error while loading shared libraries" in se:
+            import time
+            time.sleep(3)
+            rc, so, se = run(cmd, cwd=d, timeout=timeout, env=env)
+        else:
+            break
     out = so + "\n" + se
     r = {"rc": rc, "out": out, "res": None, "dir": d, "status": "ok", "what": None}
     if rc == -999:
@@ -676,7 +705,8 @@ def column_kinds(pb, names):
         elif i <= 2 * ncomp:
             kinds.append("stress")
         elif "energy" in n:
-            kinds.append("energy")
+            # (sic: the header says 'disspated energy')
+            kinds.append("dissipated_energy" if ("disspated" in n or "dissipated" in n) else "energy")
         else:
             kinds.append("strain")  # the internal state variables of the library are strains
     return kinds
@@ -693,11 +723,13 @@ def convergence_band(pb, R, nsteps, eeps, seps):
     bs = (E * eeps + seps) * max(1, nsteps)
     be = bs / smallest_modulus(pb)
     tmax = max([abs(row[0]) for row in R.rows] + [1e-300])
-    return {"stress": bs, "strain": be, "energy": bs * maxe + be * maxs, "time": 1e-14 * tmax}
+    return {"stress": bs, "strain": be, "energy": bs * maxe + be * maxs, "dissipated_energy": bs * maxe + be * maxs,
+            "time": 1e-14 * tmax}
 
 
-def compare_results(pb, R, P, nsteps, eeps, seps, cband, errs=None, tag=""):
-    """returns None when every column of every row agrees within cband x band, else (kind, message)"""
+def compare_results(pb, R, P, nsteps, eeps, seps, cband, errs=None, tag="", skip=()):
+    """returns None when every column of every row agrees within cband x band, else (kind, message);
+    the columns whose kind is listed in `skip` are not compared"""
     kinds = column_kinds(pb, R.names)
     band = convergence_band(pb, R, nsteps, eeps, seps)
     if len(R.rows) != len(P.rows):
@@ -707,6 +739,8 @@ def compare_results(pb, R, P, nsteps, eeps, seps, cband, errs=None, tag=""):
             return "rows", "rows of different lengths at t=%r" % ra[0]
         for i, (x, y) in enumerate(zip(ra, rb)):
             k = kinds[i]
+            if k in skip:
+                continue
             tol = cband * band[k] + 4e-15 * max(abs(x), abs(y))
             e = abs(x - y)
             if not (e <= tol):  # also catches NaN
